@@ -327,13 +327,16 @@ def _other_functions_mentioning_shared(repo):
     return out
 
 
-@unit('C20', 'other-methods.leave-the-ownership-to-the-constructor', ['AEIC.trajectories.store:TrajectoryStore.close'],
+@unit('C20', 'other-methods.leave-the-ownership-to-the-constructor', ['AEIC.trajectories.store:TrajectoryStore.close', 'AEIC.trajectories.store:TrajectoryStore.sync',
+                                                                         'AEIC.trajectories.store:TrajectoryStore.add', 'AEIC.trajectories.store:TrajectoryStore.merge'],
       replay='contracts.C20:replay_sequential')
 def other_methods(h):
     """The two constructor units are an induction over constructor calls; between them, any other method of the store may
     run (close, sync, add, ...).  Obligation: none of them changes the ownership attribute -- either it does not mention it
     at all (syntactic frame), or, if it does, every action sequence of it preserves the invariant
     ``first_owner is not None => active_in_thread == first_owner`` from any state (so that 'before / after close' is covered)."""
+    h.trust('syntactic frame: "a function whose body does not mention active_in_thread (by attribute or name) cannot change it" is decided '
+            'by a scan of the AST of every class and function of AEIC.trajectories.store, not by the solver; setattr / globals() tricks are not looked for')
     touching = _other_functions_mentioning_shared(h.repo)
     h.ctx.notes.append(f'functions other than the constructor that mention {SHARED}: {touching or "none"}')
     h.ensure('every-other-function-examined', True)
